@@ -9,7 +9,9 @@ For every family and scalar / vector / matrix / mutually broadcasting parameter 
   * every accessor property (`loc`, `scale`, `minval`, `maxval`, `df`, `rate`) with the real accessor and with the constructor argument,
   * private `_log_prob` (after `unwrap`) and public `log_prob` at interior / edge / outside / infinite points,
   * rejection: shapes that do not broadcast, `maxval <= minval` somewhere, `df <= 0` somewhere;
-the generated `Affine` / `Scale` / `Loc` constructors alone (`gbij`: shape, leaves, `transform_and_log_det`), and the generated
+the generated `VmapMixture.__init__` / `_log_prob` / `_sample` (`gmix`, `gmixs`: stored raw `Lambda` argument, unwrapped
+`log_normalized_weights`, `_log_prob` from the real components' values, the weight guard, `_sample` on real keys with the component
+drawn by the real `jr.categorical`); the generated `Affine` / `Scale` / `Loc` constructors alone (`gbij`: shape, leaves, `transform_and_log_det`), and the generated
 `MultivariateNormal.__init__` + accessors with `cholesky := jnp.linalg.cholesky(covariance)` (`gmvn`)."""
 from __future__ import annotations
 
@@ -182,6 +184,8 @@ def corr(c, tier, rng, c05=None, only_bij=False):
                 c.case(("gmvn", dim, kind, loc_label, tuple(x)), True)
                 c.count("famgen:MultivariateNormal")
 
+    if not only_bij:
+        corr_mixture(c, tier, rng, c05)
     outs = vlib.run_model(lines)
     for line, out, (kind, info) in zip(lines, outs, checks):
         got = parse(out)
@@ -229,3 +233,59 @@ def corr(c, tier, rng, c05=None, only_bij=False):
             ok = ok and len(last) == 2 and all((not isinstance(w, str)) and vlib.close(g, w, **tol) for g, w in zip(last, want["lps"]))
             if not ok:
                 c.mismatch("generated-mvn-ctor-vs-impl", op=line[:300], model=out[:300], impl={k: np.asarray(v).tolist() for k, v in want.items()}, **info)
+
+
+def corr_mixture(c, tier, rng, c05):
+    """the generated `VmapMixture.__init__` / `_log_prob` / `_sample` against real mixtures"""
+    import equinox as eqx
+    import jax.random as jr
+    quick = tier == "quick"
+    lines, checks = [], []
+    for mi in range(10 if quick else 80):
+        comp, k, d, params, ws = c05.rand_mixture(rng)
+        m = c05.build_mixture(comp, params, ws)
+        um = unwrap(m)
+        raw = np.asarray(m.log_normalized_weights.args[0]).tolist()
+        lnw = np.asarray(um.log_normalized_weights).tolist()
+        for xs in c05.mixture_points(comp, k, d, params, rng):
+            x = jnp.asarray(xs[0] if d is None else xs)
+            lps = np.asarray(eqx.filter_vmap(lambda dd: dd._log_prob(x))(um.dist)).tolist()
+            lines.append(f"gmix {fs2b(ws.tolist())} {fs2b(lps)}")
+            checks.append(("lp", dict(comp=comp, k=k, d=d, ws=ws.tolist(), x=xs, component_log_probs=lps), [raw, lnw, c05.real_lps(m, np.asarray(x))]))
+            c.case(("gmix", comp, k, d, tuple(ws.tolist()), tuple(xs)), True, sample={"op": lines[-1][:200], "impl": checks[-1][2][2]} if mi == 0 else None)
+            c.count("famgen:VmapMixture._log_prob")
+        for ki in range(3):
+            key = jr.PRNGKey(rng.randrange(2 ** 31))
+            key1, key2 = jr.split(key)
+            component = int(jr.categorical(key1, um.log_normalized_weights))
+            per = [np.asarray(unwrap(c05.build(comp, [np.asarray(p[i]) for p in params]))._sample(key2)).ravel().tolist() for i in range(k)]
+            dd = d or 1
+            lines.append(f"gmixs {fs2b(ws.tolist())} {component} {dd} {fs2b([v for p in per for v in p])}")
+            checks.append(("sample", dict(comp=comp, k=k, d=d, ws=ws.tolist(), component=component), np.asarray(um._sample(key)).ravel().tolist()))
+            c.case(("gmixs", comp, k, d, tuple(ws.tolist()), component, tuple(per[component])), True)
+            c.count("famgen:VmapMixture._sample")
+    for ws in [[1.0, 0.0], [-1.0], [2.0, 3.0, -1e-9]]:
+        rej = c05.raises(lambda: D.VmapMixture(eqx.filter_vmap(D.Normal)(jnp.zeros(len(ws)), jnp.ones(len(ws))), jnp.asarray(ws)).log_normalized_weights.args[0])
+        lines.append(f"gmix {fs2b(ws)} {fs2b([0.0] * len(ws))}")
+        checks.append(("guard", dict(ws=ws), "REJ" if rej else "ACC"))
+        c.case(("gmix-guard", tuple(ws)), True)
+    outs = vlib.run_model(lines)
+    for line, out, (kind, info, want) in zip(lines, outs, checks):
+        if kind == "guard":
+            if (out == "REJ") != (want == "REJ"):
+                c.mismatch("generated-mixture-guard-vs-impl", op=line[:200], model=out[:60], impl=want, **info)
+            continue
+        if not out.startswith("OK "):
+            c.mismatch("generated-mixture-vs-impl", op=line[:200], model=out[:60], impl=want, **info)
+            continue
+        if kind == "lp":
+            parts = out[3:].split("|")
+            got = [b2fs(parts[0]), b2fs(parts[1]), [v for t in parts[2].split(" ") for v in b2fs(t)]]
+            ok = vlib.allclose(got[0], want[0], **TOL) and vlib.allclose(got[1], want[1], **TOL)
+            ok = ok and len(got[2]) == 2 and all((not isinstance(w, str)) and vlib.close(g, w, **TOL) for g, w in zip(got[2], want[2]))
+            if not ok:
+                c.mismatch("generated-mixture-vs-impl", op=line[:200], model=got, impl=want, **info)
+        else:
+            got = b2fs(out[3:])
+            if not vlib.allclose(got, want, rtol=1e-12, atol=0):
+                c.mismatch("generated-mixture-sample-vs-impl", op=line[:200], model=got, impl=want, **info)
